@@ -20,7 +20,9 @@ class CallsMixin:
             return self.convert(st, self.ev(st, args[0]), args[0].get('t'), f['t'], line, args[0])
         if f.get('isBuiltin') or (f['_'] == 'Ident' and f.get('obj', {}).get('kind') == 'Builtin'):
             return self.builtin(st, f['Name'], args, e)
+        self._recv_expr = None
         key, recv = self.callee_key(st, f)
+        rx = self._recv_expr
         if key is None:
             fv = self.ev(st, f)
             if isinstance(fv, FuncV) and fv.lit is not None:
@@ -33,6 +35,7 @@ class CallsMixin:
             return TupleV([])
         argv = [self.ev(st, a) for a in args]
         argv = self.coerce_args(st, f, args, argv, e)
+        self._recv_expr = rx
         return self.call_key(st, key, recv, argv, e)
 
     def coerce_args(self, st, f, args, argv, e):
@@ -81,6 +84,7 @@ class CallsMixin:
                 return None, None
             if sel['kind'] == 'method':
                 recv = self.ev(st, f['X'])
+                self._recv_expr = f['X']
                 key = sel.get('full')
                 # adjust receiver for auto address / deref
                 return key, (recv, f['X'].get('t'))
@@ -89,8 +93,23 @@ class CallsMixin:
             return self.callee_key(st, f['X'])
         return None, None
 
+    def oncall_keyed(self, st, key, recv, argv):
+        """`oncall <Name>: <hint>` clauses of the function under verification also apply to direct calls of a function or
+        method called <Name>: checked in the pre-call state with a0, a1, ... bound to the arguments."""
+        if not self.frame or not self.frame.contract or not self.frame.contract.get('oncall'):
+            return
+        nm = re.split(r'[./]', key)[-1]
+        binds = {'a%d' % i: v for i, v in enumerate(argv)}
+        if recv is not None:
+            binds['recv'] = recv[0]
+        for cl in self.frame.contract.get('oncall'):
+            m = re.match(r'(\w+)\s*:\s*(.*)$', cl.text, re.S)
+            if m and m.group(1) == nm and m.group(2).strip() != 'maypanic':
+                self.run_hint(st, SpecEnv(st, binds, st.entry), m.group(2), cl)
+
     def call_key(self, st, key, recv, argv, e):
         line = e.get('line')
+        self.oncall_keyed(st, key, recv, argv)
         for pref in ('natives:', 'goroot:'):       # functions of a std package merged with its overlay are keyed by origin
             if key not in self.contracts and key not in self.funcs and key not in self.externs and (pref + key in self.contracts or pref + key in self.funcs or pref + key in self.externs):
                 key = pref + key
@@ -336,6 +355,19 @@ class CallsMixin:
             return
         if target[0] == 'sel':
             x = self.sev(env, target[1])
+            if isinstance(x, StructV) and target[1][0] == 'id' and target[1][1] in st.names:
+                oid = st.names[target[1][1]]
+                bx = st.meta.get('boxed') or {}
+                if oid in bx:
+                    x = bx[oid]
+                else:                                    # a field of a local struct variable
+                    for f in self.tt.fields(x.tid):
+                        if f['n'] == target[2]:
+                            v = self.lay.fresh(f['t'], 'hv.' + f['n'])
+                            for w in self.lay.wf(v, f['t']): st.assume(w)
+                            nf = dict(x.fields); nf[f['n']] = v
+                            st.env[oid] = StructV(x.tid, nf)
+                            return
             if isinstance(x, PtrV):
                 tid = x.etid
                 for f in self.tt.fields(tid):
@@ -400,6 +432,9 @@ class CallsMixin:
             return v
         wk = self.tt.kind(want_tid)
         if wk == 'ptr' and not isinstance(v, PtrV):
+            x = getattr(self, '_recv_expr', None)      # x.M() with M on *T and x an addressable T: (&x).M()
+            if x is not None and x['_'] == 'Ident':
+                return self.addr_of(st, x)
             raise Unsupported('implicit address-of receiver')
         if wk != 'ptr' and isinstance(v, PtrV) and self.tt.kind(have_tid) == 'ptr':
             return self.load_ptr(st, v)
